@@ -41,10 +41,13 @@ def check(c):
     def missing(v):
         return v is None or (isinstance(v, float) and v != v)
     unseen = any((not missing(v)) and v not in known[k] for r in c["rows"] for k, v in zip(cats, r))
+    # a removed modality of a seen category: the property does not say whether it is refused like an unseen one (the code does
+    # refuse it) - such a ValueError is not counted, exactly as such rows are skipped by the indicator comparison below
+    removed_hit = any("%s=%s" % (k, v) in set(c["remove"] or []) for r in c["rows"] for k, v in zip(cats, r))
     try:
         out = m.transform(test)
     except ValueError:
-        return None if (unseen and not c["skip_errors"]) else dict(**{"class": "unexpected-error"}, what="ValueError although every category was seen or skip_errors=True")
+        return None if ((unseen or removed_hit) and not c["skip_errors"]) else dict(**{"class": "unexpected-error"}, what="ValueError although every category was seen or skip_errors=True")
     if unseen and not c["skip_errors"]:
         return dict(**{"class": "unseen-not-refused"}, what="unseen category accepted without skip_errors")
     if list(out.index) != list(test.index) or not numpy.array_equal(out["x"].values, test0["x"].values):
